@@ -565,6 +565,7 @@ fn c10_far_offsets(ctx: &Ctx, rep: &mut Report) {
         hay[at..at + p.len()].copy_from_slice(&p);
     }
     hay[base - 2..base + 3].copy_from_slice(b"abcde"); // straddles the mark
+    let t0 = std::time::Instant::now();
     let spans = [(base - 64, base + 1000), (base - 1, base + 40), (base, base + 300), (base + 1, base + 4096), (base - 200, base - 1), (base - 2, base + 3)];
     for &kind in &Kind::ALL {
         for imp in Imp::ALL {
@@ -591,18 +592,26 @@ fn c10_far_offsets(ctx: &Ctx, rep: &mut Report) {
                             .with("what", J::s("far_offsets"))
                             .with("span", J::Arr(vec![J::u(span.0 as u64), J::u(span.1 as u64)]))
                             .with("anchored", J::Bool(anchored));
+                        // (one witness is enough: on a broken tree every further
+                        // search here may crawl through 4 GiB)
                         if !inside(&all, span) {
                             rep.violation(
                                 &format!("span:far_offsets:{}:match_outside_span", kind.name()),
                                 format!("beyond 2^32: a reported match lies outside the span {:?}: {:?}", span, a_span),
                                 small,
                             );
+                            return;
                         } else if a_span.earliest_as_existence() != a_sub.earliest_as_existence() {
                             rep.violation(
                                 &format!("span:far_offsets:{}:subslice", kind.name()),
                                 format!("beyond 2^32: searching the span {:?} = {:?}, the sub-slice shifted by its start = {:?}", span, a_span, a_sub),
                                 small,
                             );
+                            return;
+                        }
+                        if t0.elapsed().as_secs() > 90 {
+                            rep.tally("far_offsets_cut_short_slow");
+                            return;
                         }
                     }
                 }
